@@ -44,6 +44,24 @@ func init() {
 	GlobalValues = globalValues
 }
 
+// newExecGlobalValues - the predefined values of ONE execution. The predefined values that a
+// program can change in place (the number 数值 through 自增/自减, the type 异常 through
+// 如何新建异常？) are created afresh, so that nothing a program does to them is visible to
+// another execution in the same process.
+func newExecGlobalValues() map[string]r.Element {
+	execGlobals := make(map[string]r.Element, len(GlobalValues))
+	for name, elem := range GlobalValues {
+		execGlobals[name] = elem
+	}
+	if _, ok := execGlobals["数值"].(*value.Number); ok {
+		execGlobals["数值"] = &value.Number{}
+	}
+	if execGlobals["异常"] == r.Element(ZnConstExceptionClass) {
+		execGlobals["异常"] = newExceptionModel()
+	}
+	return execGlobals
+}
+
 func newExceptionModel() *value.ClassModel {
 	constructorFunc := func(receiver r.Element, values []r.Element) (r.Element, error) {
 		if err := value.ValidateExactParams(values, "string"); err != nil {
